@@ -28,8 +28,75 @@ class Rb:
         need = ['finger_press_high_boundary', 'error_const', 'current_val', 'finger_is_pressing', 'finger_just_pressed',
                 'finger_just_released', 'buff', 'num_to_ignore_up_front', 'num_to_discard_at_end'] + list(COUNTERS)
         miss = [n for n in need if n not in set(self.names) | set(adt.get('canon_paths') or {})]
+        # the two self-clearing edge flags may live in another private representation (a two-bit set, one enum, ...): they are then
+        # defined by what `finger_just_pressed()` / `finger_just_released()` would return, and set through the carrier fields
+        self.latch_carriers, self.latch_map = None, {}
+        self.has_fields = not ({'finger_just_pressed', 'finger_just_released'} & set(miss))
+        if {'finger_just_pressed', 'finger_just_released'} & set(miss):
+            self._find_latch_carriers(adt, set(need))
+            if len(self.latch_map) == 4:
+                miss = [n for n in miss if n not in ('finger_just_pressed', 'finger_just_released')]
+                RC_FIELDS.update(self.latch_carriers)
         if miss:
             raise InterpError('RibbonController fields missing (anchor changed): %s' % miss)
+
+    def _find_latch_carriers(self, adt, canon):
+        import itertools
+        cands = []
+        for f in adt['variants'][0]['fields']:
+            if f['name'] in canon:
+                continue
+            ty = f['ty']
+            if ty.get('k') == 'bool':
+                cands.append((f['name'], [BoolV(bconst(False)), BoolV(bconst(True))]))
+            elif ty.get('k') in ('int', 'uint'):
+                cands.append((f['name'], [Num(Poly.const(i), ty['n']) for i in range(4)]))
+            elif ty.get('k') == 'adt':
+                sub = self.facts.adts.get(ty.get('path'))
+                if sub and sub.get('crate') == 'synth_utils' and sub.get('kind') == 'enum' and len(sub['variants']) <= 4 \
+                        and all(not v.get('fields') for v in sub['variants']):
+                    cands.append((f['name'], [make_enum(self.facts, ty['path'], v['name']) for v in sub['variants']]))
+                elif sub and sub.get('crate') == 'synth_utils' and sub.get('kind') == 'struct' and len(sub['variants'][0]['fields']) == 1 \
+                        and sub['variants'][0]['fields'][0]['ty'].get('k') in ('int', 'uint'):
+                    # a small bit set held in a newtype (`EdgeSet(u8)`): the four values of its two low bits
+                    g = sub['variants'][0]['fields'][0]
+                    cands.append((f['name'], [StructV(sub['path'], [g['name']], [Num(Poly.const(i), g['ty']['n'])]) for i in range(4)]))
+        if not cands or len(cands) > 2:
+            return
+        self.latch_carriers = [c[0] for c in cands]
+        for combo in itertools.product(*[c[1] for c in cands]):
+            it = Interp(self.facts)
+            st = State()
+            rc, N = self.controller(it, st)
+            for (nm, _), v in zip(cands, combo):
+                rc.set(nm, copy.deepcopy(v))
+            a = self._peek(st.ctx, rc, N, 'finger_just_pressed')
+            b = self._peek(st.ctx, rc, N, 'finger_just_released')
+            if a is None or b is None:
+                continue
+            self.latch_map.setdefault((a, b), [copy.deepcopy(v) for v in combo])
+
+    def _peek(self, ctx, rc, N, getter):
+        """what the (self-clearing) edge getter would return on this state: True / False / None (undecided)"""
+        with structural():
+            it = Interp(self.facts)
+            st = State()
+            st.ctx = ctx.copy()
+            try:
+                outs, cell = run_method(it, st, RCF + getter, copy.deepcopy(rc), [], genv={'BUFFER_CAPACITY': N})
+            except InterpError:
+                return None
+        vals = {bool_of(o.ctx, o.ret) for o in outs if o.status == 'returned'}
+        return next(iter(vals)) if len(vals) == 1 and None not in vals else None
+
+    def flag(self, ctx, rc, name):
+        """value of one of the three flags of a state: the field, or what the getter of that name would return"""
+        if rc.has(name):
+            return bool_of(ctx, rc.get(name))
+        return self._peek(ctx, rc, Poly.sym('param:BUFFER_CAPACITY'), name)
+
+    def show(self, rc, name):
+        return rc.get(name) if rc.has(name) else {c: rc.get(c) for c in (self.latch_carriers or [])}
 
     def controller(self, it, st, pressing=None, jp=None, jr=None):
         N = st.ctx.sym_range('param:BUFFER_CAPACITY', 2, 2 ** 20, integer=True)
@@ -62,8 +129,15 @@ class Rb:
             if v is not None:
                 rc.set(name, BoolV(bconst(v)))
         setb('finger_is_pressing', pressing)
-        setb('finger_just_pressed', jp)
-        setb('finger_just_released', jr)
+        if rc.has('finger_just_pressed') and rc.has('finger_just_released'):
+            setb('finger_just_pressed', jp)
+            setb('finger_just_released', jr)
+        elif jp is not None or jr is not None:
+            want = [k for k in self.latch_map if (jp is None or k[0] == jp) and (jr is None or k[1] == jr)]
+            if not want:
+                raise InterpError('no state of %s has just_pressed=%s just_released=%s' % (self.latch_carriers, jp, jr))
+            for nm, v in zip(self.latch_carriers, self.latch_map[sorted(want)[0]]):
+                rc.set(nm, copy.deepcopy(v))
         return rc, N
 
 
@@ -107,18 +181,18 @@ def check_poll(res, facts, prop):
                                     res.ob('R-RIBBON', inst, False, 'path ends with %s: %s' % (o.status, o.panic_info), where, key='R-RIBBON:%s:%s' % (inst, o.status))
                                     continue
                                 post = o.cells[cell]
-                                poll_obligations(res, prop, inst, pre, post, o, x, in_range, settled, full, pressing, jp, jr, N, where)
+                                poll_obligations(res, prop, inst, pre, post, o, x, in_range, settled, full, pressing, jp, jr, N, where, rb)
     # 32 pre-state partitions on the pinned tree; partitions excluded by the class invariant (pressing with a buffer that is
     # not full) may legitimately have no returning path (e.g. behind a debug assertion)
     res.floor('poll_outcomes', n, 24)
     return n
 
 
-def poll_obligations(res, prop, inst, pre, post, o, x, in_range, settled, full, pressing, jp, jr, N, where):
+def poll_obligations(res, prop, inst, pre, post, o, x, in_range, settled, full, pressing, jp, jr, N, where, rb=None):
     ctx = o.ctx
     gp = lambda nm: pre.get(nm).term
-    gq = lambda nm: post.get(nm)
-    p1, jp1, jr1 = (bool_of(ctx, gq(nm)) for nm in ('finger_is_pressing', 'finger_just_pressed', 'finger_just_released'))
+    gq = lambda nm: post.get(nm) if post.has(nm) or rb is None else rb.show(post, nm)
+    p1, jp1, jr1 = ((rb.flag(ctx, post, nm) if rb is not None else bool_of(ctx, post.get(nm))) for nm in ('finger_is_pressing', 'finger_just_pressed', 'finger_just_released'))
     r1, w1 = gq('num_samples_received'), gq('num_samples_written')
     buf0, buf1 = pre.get('buff'), post.get('buff')
     cv0, cv1 = pre.get('current_val'), post.get('current_val')
@@ -184,18 +258,23 @@ def check_edges_and_value(res, facts, prop):
     rb = Rb(facts)
     if prop == 'C15':
         for meth, latch in (('finger_just_pressed', 'finger_just_pressed'), ('finger_just_released', 'finger_just_released')):
-            for val in (False, True):
+            for val, oth in [(v_, o_) for v_ in (False, True) for o_ in ((None,) if rb.has_fields else (False, True))]:
                 it = Interp(facts)
                 st = State()
-                rc, N = rb.controller(it, st, **{'jp' if latch == 'finger_just_pressed' else 'jr': val})
+                kw = {'jp': val, 'jr': oth} if latch == 'finger_just_pressed' else {'jr': val, 'jp': oth}
+                rc, N = rb.controller(it, st, **kw)
                 pre = copy.deepcopy(rc)
                 outs, cell = run_method(it, st, RCF + meth, rc, [], genv={'BUFFER_CAPACITY': N})
                 res.absorb(it)
                 for o in sem_iter(outs):
                     post = o.cells[cell]
                     ch = set(spec_fields_changed(pre, post, RC_FIELDS))
-                    ok = o.status == 'returned' and bool_of(o.ctx, o.ret) == val and bool_of(o.ctx, post.get(latch)) is False and ch <= {latch}
-                    res.ob('R-RIBBON', '%s|latch=%s' % (meth, val), ok, 'returned %r, latch after %r, changed %s' % (o.ret, post.get(latch), sorted(ch)), where_of(facts, RCF + meth))
+                    other = 'finger_just_released' if latch == 'finger_just_pressed' else 'finger_just_pressed'
+                    # held in another representation, the two flags share their carrier: reading one must leave the other as it was
+                    ok = o.status == 'returned' and bool_of(o.ctx, o.ret) == val and rb.flag(o.ctx, post, latch) is False \
+                        and {c_.split('.')[0] for c_ in ch} <= ({latch} | set(rb.latch_carriers or [])) and (rb.has_fields or rb.flag(o.ctx, post, other) is oth)
+                    res.ob('R-RIBBON', '%s|latch=%s%s' % (meth, val, '' if oth is None else '|other=%s' % oth), ok,
+                           'returned %r, latch after %r, changed %s' % (o.ret, rb.show(post, latch), sorted(ch)), where_of(facts, RCF + meth))
         for pv in (False, True):
             it = Interp(facts)
             st = State()
@@ -293,5 +372,5 @@ def check_sizing(res, facts, prop):
             res.ob('R-AVG', 'new(): error_const = (softpot+dropper)/pullup', ec == (s_ + d_) * inv_poly(Poly.sym('pullup')), 'error_const = %r' % (ec,), where_of(facts, RCF + 'new'))
         else:
             res.ob('R-RIBBON', 'new(): settling count = sr * fall time', ign == e_ign, 'num_to_ignore_up_front = %r' % (ign,), where_of(facts, RCF + 'new'), key='R-RIBBON:new-ignore')
-        ok0 = all(isinstance(r.get(nm), Num) and r.get(nm).term == ZERO for nm in COUNTERS) and all(bool_of(o.ctx, r.get(nm)) is False for nm in ('finger_is_pressing', 'finger_just_pressed', 'finger_just_released'))
+        ok0 = all(isinstance(r.get(nm), Num) and r.get(nm).term == ZERO for nm in COUNTERS) and all(rb.flag(o.ctx, r, nm) is False for nm in ('finger_is_pressing', 'finger_just_pressed', 'finger_just_released'))
         res.ob('R-RIBBON' if prop == 'C15' else 'R-AVG', 'new(): starts released with zero counters', ok0, 'initial state %r' % (r,), where_of(facts, RCF + 'new'), key='R-RIBBON:new-state')
